@@ -356,7 +356,7 @@ def run(ck):
     for rep in range(3 if quick else 12):
         for i in range(0, len(order), size):
             wid += 1
-            workloads.append({"id": wid, "combos": order[i:i + size], "k": rs.choice([0, 3]), "exit": rs.choice(["return", "exception"]),
+            workloads.append({"id": wid, "combos": order[i:i + size], "k": [0, 3, 3, 0][rep % 4], "exit": rs.choice(["return", "exception"]),
                               "preprofiler": rs.random() < 0.5, "program_sets_profile": wid % 4 == 0, "sample_rate": [None, None, 2, 5][wid % 4]})
         rs.shuffle(order)
     # (c)+(d): fault plans x exit x pre-installed profiler
